@@ -99,5 +99,17 @@ theorem covOf_self_nonneg (Es : ((Nat → α) → α) → α) (U : (Nat → α) 
   unfold covOf
   linarith
 
+/-- on a non-negative variance the repaired cell formula (fix D37) is the plain one -/
+theorem ucVal_of_nonneg (sqrt : α → α) (pm inten v : α) (h : 0 ≤ v) :
+    ucVal sqrt pm inten v = ucValPrerepair sqrt pm inten v := by
+  unfold ucVal ucValPrerepair clip0
+  rw [if_neg (not_lt.mpr h)]
+
+/-- a (spuriously) negative variance is read as zero -/
+theorem ucVal_of_neg (sqrt : α → α) (pm inten v : α) (h : v < 0) :
+    ucVal sqrt pm inten v = pm + inten * sqrt 0 := by
+  unfold ucVal clip0
+  rw [if_pos h]
+
 end ordered
 end Variance
